@@ -726,6 +726,14 @@ func (sc *specCtx) call(e *ast.CallExpr) Value {
 		// errors.Is: a nil error matches only a nil target
 		e0, t0 := sc.eval(arg(0)).C[0], sc.eval(arg(1)).C[0]
 		return mBool(Ite(Eq(e0, Num(0)), Eq(t0, Num(0)), App("Is", SBool, e0, t0)))
+	case "same":
+		// same(a, b): the two values are identical component by component (for strings and slices: the same
+		// backing array, offset and length, which is more than equal content)
+		a, b := sc.eval(arg(0)), sc.eval(arg(1))
+		if len(a.C) != len(b.C) {
+			sc.errf(e, "same: %v and %v differ in shape", a.T, b.T)
+		}
+		return mBool(valueEq(a, b))
 	case "is_":
 		// the raw relation (for a first argument known to be non-nil, and for triggers)
 		return mBool(App("Is", SBool, sc.eval(arg(0)).C[0], sc.eval(arg(1)).C[0]))
